@@ -528,7 +528,7 @@ def load_top(loader, path, via):
             finally:
                 f.close()
         return "ok", loader.loadURL(path)
-    except Exception as e:
+    except (Exception, F.InjectedInterrupt) as e:
         return "raised", exc_sig(e, os.path.dirname(path))
 
 
@@ -741,7 +741,8 @@ def check_scenario(spec, root, inst, acc, only_fault=None, verbose=False):
             first = True
             vs = variants(p, how.get(p["a"]))
             nv = spec.get("variants", 2)
-            for exc in (vs[spec.get("vsel", 0):][:1] if nv == 1 else vs[:nv]):
+            # scenarios that get both ordinary exception variants also get the one `except Exception` cannot see
+            for exc in (vs[spec.get("vsel", 0):][:1] if nv == 1 else vs[:nv] + (("interrupt",) if nv >= 2 else ())):
                 fault = [p["kind"], p["a"], p["b"], exc]
                 if only_fault is not None and fault != only_fault:
                     continue
@@ -917,7 +918,10 @@ def run(tier):
                 "wave2_scenarios": sum(1 for sp in specs if sp.get("api") or sp.get("cyclic")),
                 "exception_variants": {"read/rawread": ["OSError", "InjectedFault(RuntimeError)"],
                                        "open": ["OSError", "URLError (URL) / InjectedFault (package)"],
-                                       "conv/sect": ["ValueError", "InjectedFault(RuntimeError)"]},
+                                       "conv/sect": ["ValueError", "InjectedFault(RuntimeError)"],
+                                       "every kind, where both variants above are used": [
+                                           "InjectedInterrupt(BaseException) - not an Exception, like "
+                                           "KeyboardInterrupt / SystemExit"]},
                 "faults_per_run": 1,
                 "quick_tier_reduction": "scenarios with 4 resources AND an extra edge get only the first "
                                         "exception variant per point" if tier == "quick" else None,
